@@ -18,7 +18,7 @@ use families::Case;
 use mccore::*;
 use net::{parse_schedule, schedule_string, Action, Schedule};
 use scenario::*;
-use std::collections::{BTreeMap, HashSet, VecDeque};
+use std::collections::{BTreeMap, HashMap, HashSet, VecDeque};
 use std::io::{BufRead, BufReader, Write};
 use std::process::{Child, ChildStdin, ChildStdout, Command, Stdio};
 use std::sync::{Arc, Condvar, Mutex};
@@ -432,11 +432,19 @@ fn master(property: &str, out_path: &str) {
     let mut vs = g.violations.clone();
     vs.sort_by_key(|(j, c, _)| (j.schedule.len(), j.family.clone(), j.case, c.clone(), schedule_string(&j.schedule)));
     let mut seen = HashSet::new();
+    // at most 8 reports per clause, so that a clause with many instances (e.g. a known finding)
+    // cannot crowd another clause out of the report
+    let mut per_clause: HashMap<String, usize> = HashMap::new();
     for (job, clause, detail) in vs {
         let case = &cases[&job.family][job.case];
         if !seen.insert((job.family.clone(), job.case, clause.clone())) {
             continue;
         }
+        let n = per_clause.entry(clause.clone()).or_insert(0);
+        if *n >= 8 {
+            continue;
+        }
+        *n += 1;
         let sched = schedule_string(&job.schedule);
         let mut v = Violation::new(&clause, detail.clone());
         v.fingerprint = format!("netmc|{}|{}|{}|[{}]", job.family, case.scn.name, clause, sched);
@@ -451,7 +459,7 @@ fn master(property: &str, out_path: &str) {
             .set("clause", clause.as_str())
             .set("detail", detail.as_str());
         rep.violations.push(v);
-        if rep.violations.len() >= 24 {
+        if rep.violations.len() >= 64 {
             break;
         }
     }
